@@ -142,7 +142,9 @@ def theorems_of(module):
         if m and ns and ns[-1] == m.group(1):
             ns.pop()
             continue
-        m = re.match(r"\s*(?:private\s+|protected\s+)?theorem\s+(\S+)", line)
+        if re.match(r"\s*private\s+theorem\s", line):
+            continue          # local helper, not a property theorem
+        m = re.match(r"\s*(?:protected\s+)?theorem\s+(\S+)", line)
         if m:
             names.append(".".join(ns + [m.group(1)]))
     return names
